@@ -72,8 +72,16 @@ def main(ctx):
     ctx.expect_vacuity("files explored by the chunker model", len(model_files))
     ctx.extra["model_files_all_buffer_sizes"] = len(model_files)
     if thorough:
-        ctx.tlc_model("Chunker", "Chunker_sim.cfg", env={"VERIF_CASES": scratch_cases}, timeout=1500,
-                      simulate="num=1500", extra=("-depth", "6000", "-seed", str(ctx.seed)))
+        sim = ctx.tlc_model("Chunker", "Chunker_sim.cfg", env={"VERIF_CASES": scratch_cases}, timeout=1500,
+                            simulate="num=2500", extra=("-depth", "6000", "-seed", str(ctx.seed)))
+        import re
+        m = re.search(r"The number of states generated: (\d+)", sim.out)
+        t = re.search(r"(\d+) traces generated", sim.out)
+        if not m or int(m.group(1)) == 0:
+            raise vlib.Inconclusive("simulation run generated no state")
+        ctx.transitions += int(m.group(1))          # simulation: states visited along random behaviours (not distinct)
+        ctx.extra["simulated_states"] = int(m.group(1))
+        ctx.extra["simulated_behaviours"] = int(t.group(1)) if t else 0
     neg = ctx.tlc("Chunker", "Chunker_b1.cfg", env={"VERIF_CASES": scratch_cases}, timeout=600, count=False, deadlock_check=True)
     if "StepBound" not in neg.invariant_violated:
         raise vlib.Inconclusive("negative test: with a 1-byte buffer the model must violate StepBound (livelock):\n" + neg.tail())
@@ -117,7 +125,7 @@ def main(ctx):
     trace = ctx.path("trace.ndjson")
     ctx.harness(["record", "C01", "--out", trace, "--n", 400 if thorough else 22, "--opt", "shapes=" + shapes,
                  "--opt", "bindir=" + bindir, "--opt", "thorough=%d" % (1 if thorough else 0),
-                 "--opt", "dir=" + ctx.path("bigfiles"), "--opt", "cmdevery=%d" % (4 if thorough else 5)], timeout=3000)
+                 "--opt", "dir=" + ctx.path("bigfiles"), "--opt", "flat128=%d" % (1 if thorough else 0), "--opt", "cmdevery=%d" % (4 if thorough else 5)], timeout=3000)
     events = [json.loads(l) for l in open(trace) if l.strip()]
     os.remove(trace)
     ctx.expect_vacuity("recorded runs", len(events))
@@ -138,6 +146,9 @@ def main(ctx):
               "cmd/fasta/file", "cmd/fasta/stdin", "cmd/fasta/gz", "cmd/fastq/file", "cmd/fastq/stdin", "cmd/fastq/gz",
               "boundary/fastq/eQ", "boundary/fastq/Qq", "boundary/fastq/eP", "boundary/fasta/multi", "boundary/fastq/multi"]:
         ctx.expect_vacuity("trace class " + n, tcls.get(n, 0))
+    if thorough:
+        for n in ["boundary/genbank/128MiB", "boundary/embl/128MiB"]:
+            ctx.expect_vacuity("trace class " + n, tcls.get(n, 0))
     validate_trace(ctx, events, "t")
     ctx.samples.append({"trace_event": slim(events[0])})
     ctx.samples.append({"trace_event": slim(next((e for e in events if e["op"] == "cmd"), events[-1]))})
